@@ -252,6 +252,7 @@ def emit(f):
               "remove_defers_drops", "remove_decrements_length_first", "remove_frees_identifier_first",
               "clone_from_hides_rows_first", "clone_from_writes_back_on_unwind", "clone_from_identifier_column_written_back",
               "world_clone_from_forgets_identifiers_first", "world_clone_from_clears_on_unwind",
+              "resource_reshape_indices_per_level",
               "entities_macro_evaluates_size_once", "entities_macro_unchecked_arms_known",
               "iter_fold_folds_current_first", "iter_next_drains_current_first",
               "alloc_get_checks_generation", "alloc_is_active_checks_generation", "resolution_sites_use_allocator",
@@ -472,6 +473,15 @@ def order_facts():
     f["world_clone_from_forgets_identifiers_first"] = 0 <= i_fgt < i_cln and "self.archetypes.clone_from(" not in b
     f["world_clone_from_clears_on_unwind"] = 0 <= i_grd < i_cln < i_mf < i_al and \
         re.search(r"DropforClearOnUnwind<'_,Registry>whereRegistry:registry::Registry,?\{fndrop\(&mutself\)\{forarchetypeinself\.0\.iter_mut\(\)\{archetype\.clear_detached\(\);\}\}\}", wc) is not None
+    # --- resource views (finding F15): is the witness of each level's reshape its own, or tied to the tail's?
+    rv = norm(strip_comments(read("src/resource/contains/views.rs")))
+    per_level = "typeCanonical;" in rv and "(Views::View,Resources::Canonical):Reshape<Views,ReshapeIndex>," in rv \
+        and "Reshape<Views,(ReshapeIndex,ReshapeIndices)>" not in rv and "typeCanonical:" not in rv
+    shared = "typeCanonical:Reshape<Views,ReshapeIndices>;" in rv \
+        and "(Views::View,Resources::Canonical):Reshape<Views,(ReshapeIndex,ReshapeIndices)>," in rv
+    if per_level == shared:
+        raise ParseFailure("resource/contains/views.rs: the reshape bound of the Contained step is of neither known form")
+    f["resource_reshape_indices_per_level"] = per_level
     al = read("src/entity/allocator/mod.rs")
     bs = [norm(b) for q, n, b in fn_bodies(al) if n == "clear"]
     f["world_clone_from_forgets_identifiers_first"] = f["world_clone_from_forgets_identifiers_first"] and \
